@@ -45,7 +45,7 @@ def base_mesh(ct, n, how="plain", rng=None):
         m = m.convert(2, True, True)
     elif ct == "hexahedron27":
         m = m.convert(2, True, True, True)
-    if how == "curved":
+    if how in ("curved", "bulged"):
         m = distort(m, ct, how, rng)
     return m
 
@@ -63,6 +63,11 @@ def distort(mesh, ct, how, rng):
         # smooth non-affine map (keeps mid-nodes consistent up to curvature): x += a * sin-free polynomial bump
         x = pts.copy()
         pts = x + 0.1 * np.stack([x[:, (k + 1) % dim] * (1 - x[:, (k + 1) % dim]) * (1 if k % 2 == 0 else -1) for k in range(dim)], axis=1)
+    elif how == "bulged":
+        # radial bulge: DOUBLY curved faces (the closure / flux identities are exact only with the full face rule of the quadratic types)
+        x = pts.copy()
+        r2 = ((x - 0.5) ** 2).sum(axis=1)
+        pts = x + 0.5 * (x - 0.5) * (0.25 * dim - r2)[:, None]
     elif how == "lshape":
         pass
     return fem.Mesh(pts, mesh.cells, mesh.cell_type)
@@ -127,9 +132,11 @@ def main():
         if out.want(rid):
             out.write({"id": rid, "kind": "table", "nt": True, "dim": dim, "nn": nn, "ncorner": 2 ** (dim - 1),
                        "X": [qi(np.rint(p)) for p in e.points], "cells": [qi(c) for c in cells_t], "faces": [qi(f) for f in faces_t]})
-        hows = ["plain", "affine", "perturbed", "curved"]
+        hows = ["plain", "affine", "perturbed", "curved"] + (["bulged"] if ct not in ("quad", "hexahedron") else [])
         for how in hows:
             for n in ((2, 3) if quick or dim == 3 else (2, 3, 4)):
+                if how == "bulged" and n > 2:
+                    continue              # one cell: few terms, tight bound on the sums
                 if dim == 3 and n == 3 and ct != "hexahedron" and quick:
                     continue
                 mesh = base_mesh(ct, n, how, np.random.RandomState(rng.randint(0, 2 ** 31 - 1)))
